@@ -103,16 +103,21 @@ fn combo(k: usize) -> (usize, usize, usize) {
   (0, 0, 0)
 }
 const COMBOS: usize = 165;
+/// read-pause cases: k = 1..=KMAX per writer kind; k beyond the number of storage reads of a
+/// reader open (measured on the first such case) are skipped
+const KMAX: usize = 32;
+/// number of storage reads of one `IndexReader::open` on the prefilled index (filesystem)
+static N_READS: Mutex<Option<usize>> = Mutex::new(None);
 
 impl Prop for C06 {
   fn id(&self) -> &'static str {
     "C06"
   }
   fn rule(&self) -> &'static str {
-    "quick: index with two prefilled segments; threads = one compaction, one commit (an add, an upsert and a delete queued beforehand, so old segments get tombstones and a segment is added), one reader open+search; ALL merges of the reader's steps (manifest copy, each segment open) with the writer-side steps (compaction: lock, segment written, published, old files removed, done; commit: lock, published, done) in both lock orders = 2 x 165 scripts, alternating filesystem / in-memory storage in thorough and every third case in quick; thorough adds random scripts with two readers, two compactions and two commits. non-trivial = a writer section starts, publishes or cleans up between the reader's call begin and call end, or a writer thread was blocked (writer lock / manifest write lock behind the reader's read guard) during the run; distinct = distinct case JSON"
+    "quick: index with two prefilled segments; threads = one compaction, one commit (an add, an upsert and a delete queued beforehand, so old segments get tombstones and a segment is added), one reader open+search; ALL merges of the reader's steps (manifest copy, each segment open) with the writer-side steps (compaction: lock, segment written, published, old files removed, done; commit: lock, published, done) in both lock orders = 2 x 165 scripts, alternating filesystem / in-memory storage in thorough and every third case in quick; PLUS storage-read pause points (hook H1, filesystem): for k = 1..n (n = number of storage reads of one reader open, measured) the reader is paused right before its k-th open_read/read_to_end, a compaction (even cases) or a commit (odd cases) runs to completion or until it blocks on the manifest lock, then the reader resumes - this covers the time after the instrumented reader points, e.g. after the manifest read guard is released; thorough adds random scripts with two readers, two compactions and two commits. non-trivial = a writer section starts, publishes or cleans up between the reader's call begin and call end, or a writer thread was blocked (writer lock / manifest write lock behind the reader's read guard) during the run; distinct = distinct case JSON"
   }
   fn count(&self, tier: Tier) -> usize {
-    tier.pick(2 * COMBOS, 4 * COMBOS + 600)
+    tier.pick(2 * COMBOS + 2 * KMAX, 4 * COMBOS + 2 * KMAX + 600)
   }
   fn serial(&self) -> bool {
     true
@@ -120,7 +125,24 @@ impl Prop for C06 {
   fn gen(&self, rng: &mut Rng, tier: Tier, i: usize) -> Value {
     let pre1: Vec<Value> = IDS.iter().take(3).map(|id| json!({"_id": id, "body": format!("p{id}")})).collect();
     let pre2: Vec<Value> = IDS.iter().skip(2).take(3).map(|id| json!({"_id": id, "body": format!("q{id}")})).collect();
-    if i < 4 * COMBOS {
+    let enumerated = tier.pick(2, 4) * COMBOS;
+    if i >= enumerated && i < enumerated + 2 * KMAX {
+      // storage-read pause points (hook H1, filesystem): the reader pauses right before its k-th
+      // storage read; the writer (compaction for even, commit for odd cases) then runs to
+      // completion or until it blocks on the manifest lock; then the reader resumes
+      let j = i - enumerated;
+      let k = j / 2 + 1;
+      let w_calls = if j % 2 == 0 {
+        vec![json!({"op": "compact"})]
+      } else {
+        let mut c = gen_queued(rng);
+        c.push(json!({"op": "commit"}));
+        c
+      };
+      let script = vec![1, 0, 0, 0, 0, 0, 0, 1, 1, 1];
+      return json!({"mem": false, "prefill": [pre1, pre2], "threads": [w_calls, [{"op": "open"}]], "read_pause": {"thread": 1, "k": k}, "sched": {"kind": "script", "script": script}});
+    }
+    if i < enumerated {
       // enumerated: threads 0 = compaction, 1 = commit, 2 = reader
       let block = i / COMBOS;
       let kc = block % 2 == 0;
@@ -163,6 +185,14 @@ impl Prop for C06 {
     let n = threads.len();
     if n == 0 {
       return;
+    }
+    let read_pause: Option<sched::FsPause> = case.get("read_pause").map(|p| sched::FsPause { thread: p["thread"].as_u64().unwrap_or(0) as usize, k: p["k"].as_u64().unwrap_or(0) as usize });
+    if let (Some(p), Some(nr)) = (read_pause, *N_READS.lock().unwrap()) {
+      if p.k > nr {
+        s.case(case, false);
+        s.count("read_pause_beyond_last_read");
+        return;
+      }
     }
     let dir = scratch();
     let index = match idx::create(dir.path(), &schema_json(), mem) {
@@ -222,7 +252,7 @@ impl Prop for C06 {
           for (k, c) in calls.iter().enumerate() {
             if c["op"] == "open" {
               ctx.begin(k, false, true);
-              let r = guarded(|| index.reader());
+              let r = ctx.count_reads(|| guarded(|| index.reader()));
               let v = match r {
                 Ok(Ok(reader)) => {
                   let m = reader_manifest_json(&reader);
@@ -251,11 +281,15 @@ impl Prop for C06 {
       .collect();
     let isw = is_writer.clone();
     let isr = is_reader.clone();
+    let fs_case = read_pause.is_some();
     let pauses: sched::Pauses = Box::new(move |t, kind, name| {
       if name.starts_with("call.begin") {
         return true;
       }
-      if isr[t] && (name == "reader.after_manifest_copy" || name == "reader.before_segment_open") {
+      if name == "storage.read" {
+        return true;
+      }
+      if isr[t] && !fs_case && (name == "reader.after_manifest_copy" || name == "reader.before_segment_open") {
         return true;
       }
       if kind == "enter" {
@@ -267,7 +301,16 @@ impl Prop for C06 {
     let idx2 = index.clone();
     let on_point: sched::OnPoint = Box::new(move |_t, _kind, name| if name == "commit.after_publish" || name == "compact.before_cleanup" { Some(manifest_json(&idx2)) } else { None });
     let strategy = Strategy::from_json(&case["sched"], n);
-    let run = sched::run(dir.path(), strategy, Timing::default(), pauses, Some(on_point), bodies);
+    let run = sched::run_fs(dir.path(), strategy, Timing::default(), pauses, Some(on_point), read_pause, bodies);
+    if let Some(p) = read_pause {
+      let nr = run.fs_reads.get(p.thread).copied().unwrap_or(0);
+      let mut g = N_READS.lock().unwrap();
+      *g = Some(g.unwrap_or(0).max(nr));
+      s.count("read_pause_cases");
+      if run.trace.iter().any(|e| e.name == "storage.read") {
+        s.count("read_pause_hit");
+      }
+    }
     s.count(if mem { "backend_memory" } else { "backend_filesystem" });
     s.add("scheduling_decisions", run.steps as u64);
     s.add("grants_blocked_on_held_lock", run.blocked_predicted as u64);
@@ -421,6 +464,10 @@ impl Prop for C06 {
           let mut pending_open = false;
           for (i, e) in tr.iter().enumerate() {
             if e.thread == t {
+              // a storage read after `reader.before_segment_open` belongs to that open step
+              if e.name == "storage.read" {
+                continue;
+              }
               if i > begin && i <= end && pending_open {
                 steps.push(json!(["rd"]));
                 pending_open = false;
@@ -542,6 +589,9 @@ impl Prop for C06 {
   }
   fn finish(&self, tier: Tier, s: &mut Summary) {
     s.exhaustive = tier == Tier::Quick || tier == Tier::Thorough;
+    if let Some(nr) = *N_READS.lock().unwrap() {
+      s.notes.push(format!("storage-read pause points: a reader open performs {nr} storage reads on the prefilled index; k = 1..={nr} each against a compaction and against a commit"));
+    }
     s.notes.push("exhaustive over the merges of one reader's steps with one compaction and one commit at the instrumented points (both lock orders); not over timing inside a step".into());
   }
 }
